@@ -1,6 +1,6 @@
 from harness import cache_explore as ce
 
-GEN = ["Stale"]
+GEN = ["Stale", "Engine"]
 PROPS = {"C08"}
 ASSUMPTIONS = [
     "call functions are deterministic (Herbrand terms); a store returns what was last written; every write gets a newer modified time",
